@@ -149,7 +149,7 @@ def worker(job):
             mods.append(m)
     except irfront.IRError as e:
         return {'harness': name, 'params': params, 'status': 'inconclusive', 'reason': 'IR front end: %s' % e, 'violations': [], 'samples': [], 'reached': {}}
-    lim = irsym.Limits(loop=int(opts.get('loop', 64)), wall=float(opts.get('wall', 300)), paths=int(opts.get('paths', 20000)), query_ms=int(opts.get('query_ms', 60000)),
+    lim = irsym.Limits(loop=int(opts.get('loop', 64)), wall=float(opts.get('wall', 900)), paths=int(opts.get('paths', 20000)), query_ms=int(opts.get('query_ms', 60000)),
                        fork_width=int(opts.get('fork', 64)), depth=int(opts.get('depth', 200)))
     lim.som = opts.get('som') == '1'
     if 'fast_ms' in opts: lim.fast_ms = int(opts['fast_ms'])
